@@ -249,8 +249,8 @@ class Grammar:
                     if d and got == want2:
                         self.failure(de_site, "edit-reparse:" + clause + ":" + ",".join(d), kind, key, algo)
                 except Exception as e:  # noqa: BLE001
-                if not impl_exc(e):
-                    raise
+                    if not impl_exc(e):
+                        raise
                     self.failure(ser_site, f"edit-exception:{clause}:{type(e).__name__}", kind, key, algo, note=str(e)[:200])
 
     # ---- tree
@@ -326,8 +326,8 @@ class Grammar:
                     if got != w2:
                         self.failure(ser_site, "edit-bytes:" + clause, "tree", k2, algo, w2, got)
                 except Exception as e:  # noqa: BLE001
-                if not impl_exc(e):
-                    raise
+                    if not impl_exc(e):
+                        raise
                     self.failure(ser_site, f"edit-exception:{direction}:{type(e).__name__}", "tree", key, algo, note=str(e)[:200])
 
     def _ekey(self, e, algo):
@@ -379,8 +379,8 @@ class Grammar:
                     if b.as_raw_string() != want2:
                         self.failure(f"{site}.{setter}", f"edit-bytes:{setter}", "blob", key, algo, want2[:64], b.as_raw_string()[:64])
                 except Exception as e:  # noqa: BLE001
-                if not impl_exc(e):
-                    raise
+                    if not impl_exc(e):
+                        raise
                     self.failure(f"{site}.{setter}", f"edit-exception:{type(e).__name__}", "blob", key, algo, note=str(e)[:200])
 
     @staticmethod
